@@ -16,7 +16,9 @@ Decided (necessary conditions, visible in the shape of the code):
 * R2  snapshot isolation of ``get_state``: the returned value is not the stored object, and when it is
       a shallow copy of the stored object (``model_copy()`` / ``copy.copy``) the default state class
       (DictState and its repo ancestors) has a copy hook (``model_copy`` / ``__copy__``) that re-creates
-      every mutable private container that carries its top-level keys (``DictLikeModel._data``).
+      every mutable private container that carries its top-level keys (``DictLikeModel._data``) on EVERY
+      path on which a shallow copy is made (CFG: each path entry -> return passes the re-creation unless it
+      took a branch on which ``deep`` is truthy; a re-creation guarded by the container's contents is a miss).
       Values that come from a fresh deserialization / constructor / deep copy are snapshots.
 
 Not decided: equality of values with a nested-dict model over operation sequences (reduced to "both
@@ -30,7 +32,8 @@ from __future__ import annotations
 
 import ast
 
-from ..astx import call_name, calls, dotted, expand, last
+from ..astx import atoms, call_name, calls, dotted, enclosing_stmt, expand, last
+from ..cfg import CFG
 from ..index import AnchorError, FuncNode, Module, Repo, parent, walk_shallow
 from ..selftest import Twin
 
@@ -41,7 +44,8 @@ EXPLANATION = (
     "shared helper (get_by_path/set_by_path/merge_state/create_cleared_state, resolved through imports) and forward their own parameters into "
     "the helper's path/default/value/incoming slots; every value set_state writes is the result of merge_state (no unmerged write on any path). "
     "R2: get_state never returns the stored object; a shallow copy of the stored object is accepted only if the default state class "
-    "(DictState -> DictLikeModel) has a copy hook that re-creates the private dict holding its top-level keys; fresh deserializations, "
+    "(DictState -> DictLikeModel) has a copy hook that re-creates the private dict holding its top-level keys on every CFG path with `deep` falsy "
+    "(a guard on the dict's contents/truthiness leaves a path that shares it); fresh deserializations, "
     "constructor results and deep copies are snapshots. NOT decided: value equality with a nested-dict model over arbitrary sequences, "
     "JSON round-trip fidelity, aliasing below the top level, other store implementations."
 )
@@ -333,25 +337,61 @@ def _is_copy_of(e: ast.AST, attr: str) -> bool:
     return False
 
 
-def _hook_copies(fn: ast.AST, attr: str) -> bool:
-    """The hook stores a copy of self.<attr> into <something>.<attr> (assignment, setattr, or an
+def _recreation_stmts(fn: ast.AST, attr: str) -> list[ast.AST]:
+    """Statements of the hook that store a copy of self.<attr> into <something>.<attr> (assignment, setattr, or an
     ``update={'<attr>': copy}`` / ``__pydantic_private__`` dict entry)."""
+    out = []
     for n in ast.walk(fn):
+        hit = False
         if isinstance(n, ast.Assign) and _is_copy_of(n.value, attr):
             for t in n.targets:
                 if isinstance(t, ast.Attribute) and t.attr == attr and not _is_self_attr(t):
-                    return True
+                    hit = True
                 if isinstance(t, ast.Subscript) and isinstance(t.slice, ast.Constant) and t.slice.value == attr:
-                    return True
+                    hit = True
         if isinstance(n, ast.Call) and last(call_name(n)) in ("setattr", "__setattr__", "_object_setattr"):
             a = n.args
             if len(a) >= 3 and isinstance(a[-2], ast.Constant) and a[-2].value == attr and _is_copy_of(a[-1], attr):
-                return True
+                hit = True
         if isinstance(n, ast.Dict):
             for k, v in zip(n.keys, n.values):
                 if isinstance(k, ast.Constant) and k.value == attr and _is_copy_of(v, attr):
-                    return True
-    return False
+                    hit = True
+        if hit:
+            st = enclosing_stmt(n)
+            if st is not None and all(st is not x for x in out):
+                out.append(st)
+    return out
+
+
+def _hook_copies(fn: ast.AST, attr: str) -> tuple[bool, str]:
+    """The hook gives the copy its own container on EVERY path on which a shallow copy is made: on the CFG, every path
+    from entry to a normal return passes a re-creation statement, except paths that took a branch on which the hook's
+    ``deep`` parameter is known to be truthy (a deep copy already re-creates everything).  A re-creation that is
+    conditional on anything else — the container's truthiness, its length, an `update` argument — leaves a path on
+    which the copy keeps the stored object's container."""
+    rec = _recreation_stmts(fn, attr)
+    if not rec:
+        return False, f"{fn.name} never stores a copy of self.{attr} into the new object"
+    cfg = CFG(fn)
+    rec_nodes = [n for st in rec for n in cfg.nodes_of(st)]
+    if not rec_nodes:
+        # the copy sits in the header of a compound statement (e.g. inside a with-item): treat the header node as the site
+        rec_nodes = [n for st in rec for x in ast.walk(st) for n in cfg.node_of_containing(x)]
+    deep_params = {a.arg for a in fn.args.args + fn.args.kwonlyargs + fn.args.posonlyargs if a.arg == "deep"}
+    deep_edges = []
+    for t, label in cfg.branch_edges():
+        if t.kind != "test" or not deep_params:
+            continue
+        facts = atoms(t.ast.test, label == "T")
+        if any(txt in deep_params and pol for txt, pol in facts):
+            deep_edges.append((t, label))
+    reach = cfg.reach([cfg.entry], blocked=rec_nodes, blocked_edges=deep_edges)
+    if cfg.exit in reach:
+        tests = sorted({f"`{ast.unparse(t.ast.test)}` (line {t.line})" for t in reach if t.kind == "test"})
+        return False, (f"{fn.name} re-creates self.{attr} only on some shallow-copy paths: a path with `deep` falsy reaches the return without it"
+                       + (f"; it depends on {', '.join(tests)}" if tests else ""))
+    return True, ""
 
 
 def _copy_hook_status(repo: Repo) -> tuple[bool, str, list[str]]:
@@ -367,13 +407,18 @@ def _copy_hook_status(repo: Repo) -> tuple[bool, str, list[str]]:
         _m, c = repo.cls(r)
         hooks += [(r, f) for f in c.body if isinstance(f, FuncNode) and f.name in COPY_HOOKS]
     missing = []
+    why: list[str] = []
     for attr, m, c in conts:
-        if not any(_hook_copies(f, attr) for _r, f in hooks):
+        verdicts = [_hook_copies(f, attr) for _r, f in hooks]
+        if not any(ok for ok, _w in verdicts):
             missing.append(f"{c.name}.{attr} ({m.rel}:{c.lineno})")
+            why += [w for _ok, w in verdicts if w]
     path = [f"default state class {DEFAULT_STATE} -> " + " -> ".join(r.split(":")[1] for r in chain[1:])] + [f"key-carrying private container {x}" for x in missing]
     path.append("copy hooks found: " + (", ".join(f"{r.split(':')[1]}.{f.name}" for r, f in hooks) or "none"))
+    path += why
     if missing:
-        return False, "shallow copy shares " + ", ".join(missing) + " with the stored state: writing a top-level key of the snapshot writes the store", path
+        return False, ("shallow copy shares " + ", ".join(missing) + " with the stored state: writing a top-level key of the snapshot writes the store"
+                       + ("; " + "; ".join(why) if why else "")), path
     return True, "", path
 
 
@@ -592,6 +637,10 @@ TWINS = [
     Twin("sqlite get_state memoises the loaded object", _PS, "        state = self._load_state()\n        return state.model_copy()",
          "        if getattr(self, \"_snapshot\", None) is None:\n            self._snapshot = self._load_state()\n        return self._snapshot", "C19.R2"),
     Twin("pre-fix: DictLikeModel copy hook does not re-create _data", _PE, _HOOK_COPY, "", "C19.R2"),
+    Twin("seed: copy hook skips the re-creation when _data is empty", _PE, "        if not deep:\n", "        if not deep and self._data:\n", "C19.R2"),
+    Twin("copy hook re-creates only when an update is given", _PE, "        if not deep:\n", "        if not deep and update:\n", "C19.R2"),
+    Twin("copy hook re-creates only non-empty containers (length test)", _PE, "        if not deep:\n", "        if not deep and len(self._data) > 0:\n", "C19.R2"),
+    Twin("copy hook guard inverted", _PE, "        if not deep:\n", "        if deep:\n", "C19.R2"),
     Twin("copy hook assigns the same dict", _PE, "            copied._data = dict(self._data)", "            copied._data = self._data", "C19.R2"),
     Twin("copy hook copies into a local only", _PE, "            copied._data = dict(self._data)", "            data = dict(self._data)", "C19.R2"),
     Twin("copy hook renamed, no longer called by model_copy()", _PE, "    def model_copy(\n        self, *, update: Mapping[str, Any] | None = None, deep: bool = False\n    ) -> Self:",
@@ -600,6 +649,9 @@ TWINS = [
     Twin("benign: memory get_state through a local", _PM, "        return self._state.model_copy()", "        current = self._state\n        return current.model_copy()", None),
     Twin("benign: sqlite get_state inlined", _PS, "        state = self._load_state()\n        return state.model_copy()", "        return self._load_state().model_copy()", None),
     Twin("benign: memory get_state deep copy", _PM, "        return self._state.model_copy()", "        return self._state.model_copy(deep=True)", None),
+    Twin("benign: copy hook returns early for deep copies", _PE, _HOOK_COPY, "        if deep:\n            return copied\n        copied._data = dict(self._data)\n", None),
+    Twin("benign: copy hook guard written as `not bool(deep)`", _PE, "        if not deep:\n", "        if not bool(deep):\n", None),
+    Twin("benign: copy hook re-creates unconditionally", _PE, _HOOK_COPY, "        copied._data = dict(self._data)\n", None),
     Twin("benign: copy hook uses .copy()", _PE, "            copied._data = dict(self._data)", "            copied._data = self._data.copy()", None),
     Twin("benign: copy hook uses a dict display", _PE, "            copied._data = dict(self._data)", "            copied._data = {**self._data}", None),
     Twin("benign: copy hook sets the private attribute through object.__setattr__", _PE, "            copied._data = dict(self._data)",
